@@ -80,7 +80,7 @@ func scopeDisciplineRuleSSA(r *Run, rule string) {
 		if fn.Parent() != nil {
 			return true
 		}
-		return fn.Object() != nil && !fn.Object().Exported() && !w.coreModel().canonicalSet()[fn]
+		return fnObject(fn) != nil && !fnObject(fn).Exported() && !w.coreModel().canonicalSet()[fn]
 	}
 	inline := func(caller, callee *ssa.Function) bool {
 		return pkgOf(callee) == pkg && isHelper(callee)
@@ -92,7 +92,7 @@ func scopeDisciplineRuleSSA(r *Run, rule string) {
 			return false
 		}
 		seen[fn] = true
-		if writer[fn] {
+		if writer[fn] || writes(fn) { // (writes: an instance of a generic helper is not a member of the package)
 			return true
 		}
 		for _, a := range fn.AnonFuncs {
@@ -120,6 +120,7 @@ func scopeDisciplineRuleSSA(r *Run, rule string) {
 		return false
 	}
 	covered := map[*ssa.Function]bool{}
+	coveredAt := map[token.Pos]bool{}
 	nRoots := 0
 	var roots []*ssa.Function
 	for _, fn := range all {
@@ -154,6 +155,10 @@ func scopeDisciplineRuleSSA(r *Run, rule string) {
 					stores = append(stores, i)
 					if par := origInstr(st).Parent(); par != nil {
 						covered[par] = true
+						// (an instance of a generic helper is judged for the helper as written)
+						if par.Pos().IsValid() {
+							coveredAt[par.Pos()] = true
+						}
 					}
 				}
 			}
@@ -301,7 +306,7 @@ func scopeDisciplineRuleSSA(r *Run, rule string) {
 		for top.Parent() != nil {
 			top = top.Parent()
 		}
-		if covered[fn] || covered[top] {
+		if covered[fn] || covered[top] || (fn.Pos().IsValid() && coveredAt[fn.Pos()]) {
 			continue
 		}
 		isRoot := false
